@@ -33,6 +33,8 @@ class ClassLevelCache:
     # regardless of the similarity of their content, gets its own entry in these sets.
     done: Set[Module] = field(default_factory=set)
     pending: Set[Module] = field(default_factory=set)
+    # Modules whose elaboration by this pass (or of something beneath them) failed, and the exception it failed with
+    failed: Dict[Module, Exception] = field(default_factory=dict)
 
 
 class ElabPass:
@@ -102,6 +104,11 @@ class ElabPass:
         `elaborate_module_base` instead.
         """
 
+        # Check whether an earlier attempt to elaborate `module` failed. If so, report that failure again.
+        failure = self.CLASS_LEVEL_CACHE.failed.get(module, None)
+        if failure is not None:
+            raise failure
+
         # Check if this has already been elaborated by this pass/ class
         if module in self.CLASS_LEVEL_CACHE.done:
             _verif.emit("skip_done", elabpass=self, module=module)
@@ -119,22 +126,32 @@ class ElabPass:
         self.CLASS_LEVEL_CACHE.pending.add(module)
         _verif.emit("enter", elabpass=self, module=module)
 
-        # Depth-first traverse instances, ensuring their targets are defined
-        for inst in module.instances.values():
-            self.elaborate_instance_base(inst)
-        for arr in module.instarrays.values():
-            self.elaborate_instance_base(arr)
-        for instbundle in module.instbundles.values():
-            self.elaborate_instance_base(instbundle)
+        try:
+            # Depth-first traverse instances, ensuring their targets are defined
+            for inst in module.instances.values():
+                self.elaborate_instance_base(inst)
+            for arr in module.instarrays.values():
+                self.elaborate_instance_base(arr)
+            for instbundle in module.instbundles.values():
+                self.elaborate_instance_base(instbundle)
 
-        # Traverse Bundle instances
-        for bundle in module.bundles.values():
-            self.elaborate_bundle_instance(bundle)
+            # Traverse Bundle instances
+            for bundle in module.bundles.values():
+                self.elaborate_bundle_instance(bundle)
 
-        # Run the pass-specific `elaborate_module`
-        _verif.emit("apply_begin", elabpass=self, module=module)
-        result = self.elaborate_module(module)
-        _verif.emit("apply_end", elabpass=self, module=module)
+            # Run the pass-specific `elaborate_module`
+            _verif.emit("apply_begin", elabpass=self, module=module)
+            result = self.elaborate_module(module)
+            _verif.emit("apply_end", elabpass=self, module=module)
+
+        except Exception as e:
+            # Elaboration of `module` did not complete.
+            # Un-mark it as pending, so that later runs do not mistake it for a circular dependency.
+            # Passes modify modules in place, and this one may have gotten part-way through; `module` must not be
+            # elaborated further, or exported. Keep the failure, to be reported again if anyone tries.
+            self.CLASS_LEVEL_CACHE.pending.discard(module)
+            self.CLASS_LEVEL_CACHE.failed[module] = e
+            raise
 
         # Pop the hierarchy-stack and return it
         self.stack.pop()
